@@ -3,6 +3,7 @@
 package daemon
 
 import (
+	"time"
 	"context"
 	"encoding/json"
 	"sync"
@@ -39,6 +40,12 @@ func NewVerifService(k k8s.Kubernetes, db storage.Storage, mgr *eni.Manager, dae
 }
 
 func (v *VerifService) VerifGCPods(ctx context.Context) error { return v.svc.gcPods(ctx) }
+
+// VerifRunGCLoop runs the daemon's own periodic collector (first pass at once, then every gcPeriod) until ctx ends.
+func (v *VerifService) VerifRunGCLoop(ctx context.Context) { v.svc.startGarbageCollectionLoop(ctx) }
+
+// VerifGCPeriod is the period of that loop.
+func VerifGCPeriod() time.Duration { return gcPeriod }
 
 func (v *VerifService) VerifPendingCount() int {
 	n := 0
